@@ -1128,3 +1128,102 @@ Proof.
   destruct H5 as (A&B&C).
   destruct (r_warm r <? clock s5); unfold Live, running in *; ssimpl; auto.
 Qed.
+
+(* ------------------------------------------------------------------ *)
+(** * Removing the commands from a program; completion of a calm start *)
+
+Definition is_cmd (a : action) : bool := match a with ACmd _ => true | _ => false end.
+Definition strip_cmds (p : program) : program := map (filter (fun a => negb (is_cmd a))) p.
+
+Lemma core_body_strip acts : core_body (filter (fun a => negb (is_cmd a)) acts) = core_body acts.
+Proof.
+  induction acts as [|a r IH]; cbn [filter core_body]; auto.
+  destruct a; cbn [is_cmd negb core_body]; rewrite ?IH; auto.
+Qed.
+
+Lemma body_strip p h : body (strip_cmds p) h = filter (fun a => negb (is_cmd a)) (body p h).
+Proof.
+  unfold body, strip_cmds.
+  change (@nil action) with (filter (fun a => negb (is_cmd a)) []) at 1. apply map_nth.
+Qed.
+
+(** The program with every command (in particular every stop()) removed from
+    its handlers is equivalent in the sense of the segmentation theorem. *)
+Lemma prog_equiv_strip p : prog_equiv p (strip_cmds p).
+Proof. intros h. rewrite body_strip, core_body_strip. reflexivity. Qed.
+
+(** A plain start of a program that does not interrupt runs, from a live
+    quiescent state, ends the replication through the inclusive end bound
+    unless the model ran out of fuel. *)
+Theorem calm_start_completes p fuel s r :
+  worker s = WAlive -> rep s = Some r -> start_checks s = true -> calm (strat s) p ->
+  let s' := fst (do_cmd fuel p s CStart) in
+  flag s' = false -> ps s' = PEnded /\ incl s' = true /\ clock s' = r_end r.
+Proof.
+  intros W Hr Ck Hc s' Hf. unfold s' in *. cbn [do_cmd] in *. rewrite Hr in *.
+  assert (Ee : end_time s = r_end r) by (unfold end_time; rewrite Hr; reflexivity).
+  destruct (start_checks_facts s Ck) as (_&_&Lt). rewrite Ee in Lt.
+  destruct (do_start_shape p fuel s (r_end r) true Ck ltac:(lia) W) as [a [En Sh]]. rewrite Sh in *. cbn [fst] in *.
+  assert (Cl : clamp s (r_end r) true = (r_end r, true)).
+  { unfold clamp. rewrite Ee. destruct (Z.gtb_spec (r_end r) (r_end r)); [lia|reflexivity]. }
+  rewrite Cl in En. cbn [fst snd] in En.
+  destruct (after_loop_facts (run_loop fuel p a)) as (_&K&_&Ic&_&Fl&_). rewrite Fl in Hf.
+  assert (Hca : calm (strat a) p) by (rewrite (en_strat _ _ _ _ En); exact Hc).
+  destruct (calm_run_exit p fuel a Hca (en_rs _ _ _ _ En) Hf) as [evs [s1 (H1&HB&E)]].
+  destruct (rf_bound _ _ _ (runs_facts _ _ _ _ H1)) as (Fb&Fi&Fr&Fp&_).
+  assert (Pe : ps (run_loop fuel p a) = PEnding).
+  { rewrite E. unfold stop_at_bound. cbv zeta.
+    destruct (Z.geb_spec (bound s1) (end_time s1)) as [G|G]; [reflexivity|].
+    exfalso. unfold end_time in G. rewrite Fr, Fb, (en_bound _ _ _ _ En) in G.
+    pose proof (entered_end _ _ _ _ En) as Q. unfold end_time in Q. rewrite Q in G.
+    unfold end_time in Ee. lia. }
+  destruct (after_loop_ps (run_loop fuel p a)) as [P1 _]. destruct (P1 Pe) as [A _].
+  split; [exact A|]. split.
+  - rewrite Ic. destruct (run_loop_fixed p fuel a) as (_&I&_). rewrite I. apply (en_incl _ _ _ _ En).
+  - rewrite K, E. destruct (stop_at_bound_fields s1) as (C&_). rewrite C, Fb. apply (en_bound _ _ _ _ En).
+Qed.
+
+(* ------------------------------------------------------------------ *)
+(** * From initialize on *)
+
+Lemma do_init_core p p' s r :
+  prog_equiv p p' -> core_eq (fst (do_init p s r)) (fst (do_init p' s r)).
+Proof.
+  intros PE. unfold do_init. destruct (running s); [apply core_eq_refl|].
+  set (s2 := set_created [] _).
+  destruct (exec_actions_core_body InConstruct (body p 0) s2) as [A1 B1].
+  destruct (exec_actions_core_body InConstruct (body p' 0) s2) as [A2 B2].
+  rewrite <- (PE 0%nat) in A2, B2.
+  assert (C3 : core_eq (fst (exec_actions InConstruct s2 (body p 0))) (fst (exec_actions InConstruct s2 (body p' 0))))
+    by (eapply core_eq_trans; [exact A1|apply core_eq_sym; exact A2]).
+  assert (K3 : clock (fst (exec_actions InConstruct s2 (body p 0))) = clock (fst (exec_actions InConstruct s2 (body p' 0))))
+    by congruence.
+  destruct (exec_actions InConstruct s2 (body p 0)) as [s3 f1].
+  destruct (exec_actions InConstruct s2 (body p' 0)) as [t3 f2]. cbn [fst] in *.
+  set (s5 := set_ps PInit (set_rs RInit (if f1 then raise_flag s3 else s3))).
+  set (t5 := set_ps PInit (set_rs RInit (if f2 then raise_flag t3 else t3))).
+  assert (C5 : core_eq s5 t5 /\ clock s5 = clock t5).
+  { destruct C3 as (Cp&Cn&Cc&Ct&Cx&Cr). unfold s5, t5. destruct f1, f2; unfold core_eq; ssimpl; auto 10. }
+  destruct C5 as [(Cp&Cn&Cc&Ct&Cx&Cr) K5]. rewrite K5.
+  destruct (r_warm r <? clock t5); unfold core_eq; ssimpl; rewrite ?Cp, ?Cn, ?Cc, ?Ct, ?Cx, ?Cr; auto 10.
+Qed.
+
+(** The whole replication: initialize, then any run commands, against
+    initialize, then one start of an equivalent program. *)
+Theorem segmentation_from_init p p' fuel fuel' r cs s :
+  running s = false -> prog_equiv p p' -> forallb is_runcmd cs = true ->
+  let s1 := fst (run_cmds fuel p s (CInit r :: cs)) in
+  let t1 := fst (run_cmds fuel' p' s [CInit r; CStart]) in
+  ps s1 = PEnded -> incl s1 = true -> ps t1 = PEnded -> incl t1 = true ->
+  trace s1 = trace t1 /\ clock s1 = clock t1.
+Proof.
+  intros R PE Hc. cbv zeta. cbn [run_cmds do_cmd].
+  pose proof (do_init_core p p' s r PE) as C0.
+  pose proof (do_init_live p s r R) as L0. pose proof (do_init_live p' s r R) as L0'.
+  destruct (do_init p s r) as [s0 res0]. destruct (do_init p' s r) as [t0 res0']. cbn [fst] in *.
+  pose proof (segmentation p p' fuel fuel' cs [CStart] s0 t0 PE C0 (or_introl L0) (or_introl L0') Hc eq_refl) as H.
+  cbv zeta in H. cbn [run_cmds do_cmd] in H.
+  destruct (run_cmds fuel p s0 cs) as [s1 sn1].
+  destruct (match rep t0 with Some r0 => do_start fuel' p' t0 (TNum (r_end r0)) true | None => (t0, ResRefused) end) as [t1 rs1].
+  cbn [fst] in *. intros P1 I1 P2 I2. destruct (H P1 I1 P2 I2) as [(_&_&_&T&_) K]. auto.
+Qed.
